@@ -574,7 +574,14 @@ def setup():
     if not ok: print('translator:', note); return 1
     rc, out = sh(['lake', 'build', 'ClockBound', 'cbmodel'], cwd=LEAN, timeout=6000)
     print(out[-1500:])
-    if rc != 0: return rc
+    if rc != 0:
+        # on a tree whose source differs from the one the tie proofs were written for, some `CodeTie*` / `OnCode*` modules may no
+        # longer build: that is for the checks to report (each builds and audits its own modules), not a reason for set-up to fail.
+        # The model driver must build, though.
+        rc, out = sh(['lake', 'build', 'cbmodel'], cwd=LEAN, timeout=6000)
+        print(out[-800:])
+        if rc != 0: return rc
+        print('note: some library modules did not build (see above); the checks report them')
     rc, out = build_harness()
     print(out[-1500:])
     if rc != 0: return rc
